@@ -39,6 +39,7 @@ const (
 )
 
 type proc struct {
+	seen    map[string]int
 	name    string
 	gid     int64
 	st      state
@@ -55,12 +56,16 @@ type Sched struct {
 	trace     []Event
 	free      bool
 	expectNew int
+	expected  map[string]bool
 	// Name derives the process name of a goroutine first seen at a hook (code-spawned goroutines).
 	Name func(point string, obj interface{}) string
 	// Attrs derives the attributes logged with a hook event.
 	Attrs func(point string, obj interface{}) map[string]interface{}
 	// Spawns reports how many new goroutines the code starts right after this point is passed.
 	Spawns func(point string) int
+	// Rename maps a point name to the name used by the specification (e.g. to tell two
+	// occurrences of the same hook apart); nth is how often this process has passed the point before.
+	Rename func(point string, nth int) string
 	// Ignore makes the handler return at once for a point (not gated, not logged).
 	Ignore  func(point string) bool
 	Skipped int // schedule entries that could not be taken (drift)
@@ -123,11 +128,16 @@ func (s *Sched) handle(point string, obj interface{}) {
 	s.mu.Lock()
 	p := s.procs[g]
 	if p == nil {
-		name := fmt.Sprintf("g%d", g)
+		// a goroutine the harness did not start: it takes part only if Name recognises it as a
+		// goroutine spawned by the code under test for THIS run (leftovers of earlier runs and
+		// unrelated background goroutines pass through untouched and unlogged)
+		name := ""
 		if s.Name != nil {
-			if n := s.Name(point, obj); n != "" {
-				name = n
-			}
+			name = s.Name(point, obj)
+		}
+		if name == "" {
+			s.mu.Unlock()
+			return
 		}
 		p = &proc{name: name, gid: g, release: make(chan struct{}, 1)}
 		s.procs[g] = p
@@ -137,6 +147,15 @@ func (s *Sched) handle(point string, obj interface{}) {
 		if s.expectNew > 0 {
 			s.expectNew--
 		}
+		delete(s.expected, name)
+	}
+	if s.Rename != nil {
+		if p.seen == nil {
+			p.seen = map[string]int{}
+		}
+		nth := p.seen[point]
+		p.seen[point] = nth + 1
+		point = s.Rename(point, nth)
 	}
 	var attrs map[string]interface{}
 	if s.Attrs != nil {
@@ -154,6 +173,19 @@ func (s *Sched) handle(point string, obj interface{}) {
 	s.mu.Unlock()
 	s.notify()
 	<-p.release
+}
+
+// Expect announces that the code has just started a goroutine that will show up as process `name`
+// at its first hook; Settle waits for it.
+func (s *Sched) Expect(name string) {
+	s.mu.Lock()
+	if s.byName[name] == nil {
+		if s.expected == nil {
+			s.expected = map[string]bool{}
+		}
+		s.expected[name] = true
+	}
+	s.mu.Unlock()
 }
 
 // Go starts fn as a named harness process, parked at the virtual point "start".
@@ -183,9 +215,26 @@ func (s *Sched) Go(name string, fn func()) {
 }
 
 // goroutine states from a full stack dump: gid -> status string
+var dbg func(string)
+
+// SetDebug installs a debug sink.
+func SetDebug(f func(string)) { dbg = f }
+
+var (
+	dumpMu  sync.Mutex
+	dumpBuf = make([]byte, 64<<10)
+)
+
 func statuses() map[int64]string {
-	buf := make([]byte, 1<<20)
+	dumpMu.Lock()
+	defer dumpMu.Unlock()
+	buf := dumpBuf
 	n := runtime.Stack(buf, true)
+	for n == len(buf) { // truncated: every goroutine must be in the dump
+		buf = make([]byte, 2*len(buf))
+		dumpBuf = buf
+		n = runtime.Stack(buf, true)
+	}
 	res := map[int64]string{}
 	for _, line := range strings.Split(string(buf[:n]), "\n") {
 		if !strings.HasPrefix(line, "goroutine ") {
@@ -214,12 +263,17 @@ func statuses() map[int64]string {
 	return res
 }
 
+// blockedStatus: only states in which a goroutine waits for ANOTHER goroutine count as blocked.
+// Transient runtime states (GC assist wait, preempted, sleep, IO wait, syscall ...) end by themselves,
+// so a goroutine in one of them is still busy.
 func blockedStatus(st string) bool {
 	switch st {
-	case "running", "runnable", "syscall", "":
-		return false
+	case "sync.Cond.Wait", "sync.Mutex.Lock", "sync.RWMutex.Lock", "sync.RWMutex.RLock", "semacquire",
+		"chan receive", "chan send", "select", "sync.WaitGroup.Wait", "chan receive (nil chan)",
+		"chan send (nil chan)", "select (no cases)":
+		return true
 	}
-	return true
+	return false
 }
 
 // Settle waits until every known process is at a hook, finished, or blocked inside the code
@@ -228,7 +282,8 @@ func blockedStatus(st string) bool {
 func (s *Sched) Settle() []string {
 	deadline := time.Now().Add(20 * time.Second)
 	stable := 0
-	var last string
+	spins := 0
+	last := "\x00none"
 	for {
 		s.mu.Lock()
 		var busy []*proc
@@ -237,22 +292,26 @@ func (s *Sched) Settle() []string {
 				busy = append(busy, p)
 			}
 		}
-		exp := s.expectNew
+		exp := s.expectNew + len(s.expected)
 		s.mu.Unlock()
 		if len(busy) == 0 && exp == 0 {
+			if dbg != nil {
+				dbg(fmt.Sprintf("settle: idle spins=%d", spins))
+			}
 			return nil
 		}
 		var blocked []string
-		allBlocked := exp == 0
+		allBlocked := exp == 0 && spins >= 50
 		if allBlocked {
 			sts := statuses()
 			for _, p := range busy {
 				st, ok := sts[p.gid]
-				if !ok { // goroutine ended without passing a hook
+				if !ok { // goroutine ended without passing a hook: the snapshot above is stale, start over
 					s.mu.Lock()
 					p.st = done
 					s.mu.Unlock()
-					continue
+					allBlocked = false
+					break
 				}
 				if !blockedStatus(st) {
 					allBlocked = false
@@ -268,18 +327,26 @@ func (s *Sched) Settle() []string {
 			} else {
 				stable, last = 0, sig
 			}
-			if stable >= 2 {
+			if stable >= 1 {
+				if dbg != nil {
+					dbg(fmt.Sprintf("settle: blocked=%v exp=%d spins=%d sts=%v", blocked, exp, spins, statuses()))
+				}
 				return blocked
 			}
 		} else {
-			stable, last = 0, ""
+			stable, last = 0, "\x00none"
 		}
 		if time.Now().After(deadline) {
 			panic("vsched: Settle timeout; running procs never reached a hook or a blocked state")
 		}
+		spins++
+		if spins < 200 {
+			runtime.Gosched() // the released goroutine usually reaches its next hook within microseconds
+			continue
+		}
 		select {
 		case <-s.wake:
-		case <-time.After(150 * time.Microsecond):
+		case <-time.After(100 * time.Microsecond):
 		}
 	}
 }
@@ -389,6 +456,34 @@ func (s *Sched) Status(name string) string {
 		return ""
 	}
 	return statuses()[p.gid]
+}
+
+// StatusAll returns the runtime status string of every named process's goroutine (one dump).
+func (s *Sched) StatusAll() map[string]string {
+	sts := statuses()
+	s.mu.Lock()
+	defer s.mu.Unlock()
+	res := map[string]string{}
+	for n, p := range s.byName {
+		res[n] = sts[p.gid]
+	}
+	return res
+}
+
+// Debug returns a description of the scheduler's internal state.
+func (s *Sched) Debug() string {
+	s.mu.Lock()
+	defer s.mu.Unlock()
+	var b strings.Builder
+	for _, p := range s.procs {
+		b.WriteString(p.name + ":" + strconv.Itoa(int(p.st)) + "@" + p.at + " ")
+	}
+	b.WriteString("| expected=")
+	for n := range s.expected {
+		b.WriteString(n + " ")
+	}
+	b.WriteString("| expectNew=" + strconv.Itoa(s.expectNew))
+	return b.String()
 }
 
 // Names returns all process names seen.
